@@ -29,6 +29,7 @@ SO_PIN = b'sopin123'; USER_PIN = b'userpin1'
 OK = 'CKR_OK'; SMALL = 'CKR_BUFFER_TOO_SMALL'; ACTIVE = 'CKR_OPERATION_ACTIVE'; NOINIT = 'CKR_OPERATION_NOT_INITIALIZED'
 # errors that reject an argument and (on this library) leave the operation usable: the statement's "failed" is read narrowly
 ARG_REJECTIONS = {'CKR_FUNCTION_NOT_SUPPORTED', 'CKR_KEY_HANDLE_INVALID', 'CKR_KEY_INDIGESTIBLE', 'CKR_ARGUMENTS_BAD'}
+USER_PIN12 = b'user-pin-c12'
 def canary(i): return (0xA5 ^ (i * 37 + (i >> 8))) & 0xff
 
 DIGESTS = {'CKM_MD5': 16, 'CKM_SHA_1': 20, 'CKM_SHA224': 28, 'CKM_SHA256': 32, 'CKM_SHA384': 48, 'CKM_SHA512': 64}
@@ -96,7 +97,13 @@ class Worker:
         s.slot = x.call('C_GetSlotList', count=8)['slots'][-1]
         assert x.call('C_InitToken', slot=s.slot, pin=SO_PIN.hex(), label=b'c12'.hex())['rv'] == 0
         s.keeper = x.call('C_OpenSession', slot=s.slot)['h']; s.twin = x.call('C_OpenSession', slot=s.slot)['h']
+        # the user is logged in for the whole job (all working keys are public): needed for the one private CKA_ALWAYS_AUTHENTICATE key of the "poison" steps
+        assert x.call('C_Login', s=s.keeper, user=0, pin=SO_PIN.hex())['rv'] == 0 and x.call('C_InitPIN', s=s.keeper, pin=USER_PIN12.hex())['rv'] == 0 and x.call('C_Logout', s=s.keeper)['rv'] == 0
+        assert x.call('C_Login', s=s.keeper, user=1, pin=USER_PIN12.hex())['rv'] == 0
         s.keys = {}
+        r = x.call('C_CreateObject', s=s.keeper, tmpl=x.T(dict(K.rsa_priv(ck), CKA_TOKEN=False, CKA_PRIVATE=True, CKA_ALWAYS_AUTHENTICATE=True)))
+        s.aa_key = r['h'] if r['rv'] == 0 else None
+        if s.aa_key is None: part.observe('the always-authenticate key could not be created (poison steps left out)', r['rvname'])
         def mk(name, t):
             t = dict(t); t.update({'CKA_TOKEN': False, 'CKA_PRIVATE': False})
             r = x.call('C_CreateObject', s=s.keeper, tmpl=x.T(t)); assert r['rv'] == 0, (name, r); s.keys[name] = r['h']
@@ -298,7 +305,7 @@ class Worker:
             s.x.call('C_CloseSession', s=S['h']); S['h'] = s.x.call('C_OpenSession', slot=s.slot)['h']
         s.case(op.kind, op.cls, step, 'none')
         if op.disturbed: s.run_twin(op)
-        elif s.rnd.random() < 0.3:
+        elif S.pop('fresh_twin_next', False) or s.rnd.random() < 0.3:
             # "an operation that finished or failed is gone": whatever ran in this session before, this operation must have answered as it does in a session that never ran
             # anything - the same calls are replayed on a brand-new twin session
             s.reset_twin(); s.run_twin(op)
@@ -419,6 +426,20 @@ class Worker:
     # ---- steps on idle / active sessions
     def idle_step(s, S):
         r = s.rnd; sess = S['h']
+        if s.aa_key is not None and r.random() < 0.06:
+            # "poison": something that ended (or never began) must leave NOTHING in the session: (a) a C_SignInit with the always-authenticate key that is refused late (PSS salt that cannot fit),
+            # (b) a complete always-authenticate signature (Init, context-specific login, one-shot).  What follows in this session is compared with a brand-new session (fresh-session twins).
+            x = s.x; ck = s.ck
+            if r.random() < 0.6:
+                q = s.call('C_SignInit', s=sess, key=s.aa_key, mech=x.M('CKM_SHA512_RSA_PKCS_PSS', pss={'hash': ck.CKM_SHA512, 'mgf': ck.CKG_MGF1_SHA512, 'slen': r.choice([64, 63, 200])})); s.part.count('poison_refused_inits' if q['rv'] else 'poison_inits_accepted')
+                if q['rv'] == 0: s.call('C_SignUpdate', s=sess, data='00'); s.call('C_Login', s=sess, user=2, pin=USER_PIN12.hex()); s.call('C_SignFinal', s=sess, buf=256)
+                else:
+                    q2 = s.call('C_Login', s=sess, user=2, pin=USER_PIN12.hex())
+                    if q2['rv'] == 0: s.V('C_Login(CKU_CONTEXT_SPECIFIC)', 'after-refused-C_SignInit', 'accepted-without-an-operation', 'a context-specific login was accepted although the C_SignInit that would have needed it had been refused (no operation is active)', init=q['rvname'])
+            else:
+                q = s.call('C_SignInit', s=sess, key=s.aa_key, mech=x.M('CKM_SHA256_RSA_PKCS'))
+                if q['rv'] == 0: s.call('C_Login', s=sess, user=2, pin=USER_PIN12.hex()); q3 = s.call('C_Sign', s=sess, data='abcd', buf=256); s.part.count('poison_complete_aa_signatures' if q3['rv'] == 0 else 'poison_aa_signature_failed')
+            s.case('sign', 'rsa-sign', 'poison', 'none'); S['fresh_twin_next'] = True; return
         if r.random() < 0.72:
             op = s.new_op()
             if op is None: return
